@@ -161,7 +161,15 @@ func (m *ParSigEx) Broadcast(ctx context.Context, duty core.Duty, set core.ParSi
 // Subscribe registers a callback when a partially signed duty set
 // is received from a peer. This is not thread safe, it must be called before starting to use parsigex.
 func (m *ParSigEx) Subscribe(fn func(context.Context, core.Duty, core.ParSignedDataSet) error) {
-	m.subs = append(m.subs, fn)
+	m.subs = append(m.subs, func(ctx context.Context, duty core.Duty, set core.ParSignedDataSet) error {
+		// Clone before calling each subscriber.
+		clone, err := set.Clone()
+		if err != nil {
+			return err
+		}
+
+		return fn(ctx, duty, clone)
+	})
 }
 
 // NewEth2Verifier returns a partial signature verification function for core workflow eth2 signatures.
